@@ -74,4 +74,13 @@ PLANS["kill-restart-tok"] = P(
     {"t": 1},
 )
 
+PLANS["rerun-rmdone"] = P(
+    {"a": {"codes": [0, 1]}, "b": {"deps": {"a": "direct"}}},
+    submit_all("ab") + [["rmdone", "a"], ["restart"]] + submit_all("ab"),
+)
+PLANS["rerun-rmdone-ok"] = P(
+    {"a": {}, "b": {"deps": {"a": "list"}}, "c": {"deps": {"b": "direct"}}},
+    submit_all("abc") + [["rmdone", "b"], ["restart"]] + submit_all("abc"),
+)
+
 QUICK = list(PLANS)
